@@ -1006,6 +1006,19 @@ func ruleReset(c *Ctx) {
 			return true
 		})
 		c.Check(okW, "WithCopyStrings:stores-argument", p.Pos(wfd), "pj.copyStrings = b", "WithCopyStrings does not store its argument", "")
+		// and it hands back that option on every path
+		okRet, nRetW := true, 0
+		if sps, ok := p.SymPaths(wfd, 100, nil); ok {
+			for _, sp := range sps {
+				if sp.Feasible() && sp.RetNode != nil {
+					nRetW++
+					if len(sp.Ret) != 1 || sp.Ret[0].String() != "funclit" {
+						okRet = false
+					}
+				}
+			}
+		}
+		c.Check(okRet && nRetW >= 1, "WithCopyStrings:returns-option", p.Pos(wfd), "returns the option function on every path", "WithCopyStrings can return something other than its option function (a nil option makes newInternalParsedJson call a nil function)", "Parse(b, nil, WithCopyStrings(false))")
 	} else {
 		c.Unresolved("WithCopyStrings", "function not found")
 	}
